@@ -31,6 +31,8 @@ HDRS = [
     (b'Connection', b'Upgrade', b'Connection: Upgrade'), (b'Upgrade', b'websocket', b'Upgrade: websocket'),  # 17, 18: handshake
     (b'Proxy-Trace-Id', b'abc123', b'Proxy-Trace-Id: abc123'), (b'proxy-segment', b'eu', b'proxy-segment: eu'),  # 19, 20: end-to-end
     (b'X-Proxy-Authorization', b'keep', b'X-Proxy-Authorization: keep'),                                        # 21: look-alike
+    (b'X-Rep', b'1', b'X-Rep: 1'), (b'X-Rep', b'2', b'X-Rep: 2'),                                               # 22, 23: a field sent twice
+    (b'Accept-Language', b'de', b'Accept-Language: de'), (b'accept-language', b'en', b'accept-language: en'),   # 24, 25: twice, two spellings
 ]
 BODIES = [b'', b'a', b'abc', b'\x00\xff\r\n', b'0\r\n\r\n', b'x' * 70]
 
@@ -43,7 +45,8 @@ def corpus(tier):
              [HDRS[0], HDRS[4], HDRS[5]], [HDRS[0], HDRS[8], HDRS[9], HDRS[10]],
              [HDRS[0], HDRS[1], HDRS[7], HDRS[6]],
              [HDRS[0], HDRS[11], HDRS[12], HDRS[16]], [HDRS[0], HDRS[14], HDRS[15], HDRS[13]],
-             [HDRS[0], HDRS[7], HDRS[17], HDRS[18]], [HDRS[0], HDRS[19], HDRS[20], HDRS[21], HDRS[7], HDRS[6]]]
+             [HDRS[0], HDRS[7], HDRS[17], HDRS[18]], [HDRS[0], HDRS[19], HDRS[20], HDRS[21], HDRS[7], HDRS[6]],
+             [HDRS[0], HDRS[22], HDRS[1], HDRS[23]], [HDRS[0], HDRS[24], HDRS[25]]]
     if thorough:
         hsets += [[HDRS[0]] + list(c) for c in itertools.combinations(HDRS[1:], 2)][::6]
     for mi, m in enumerate(METHODS):
@@ -55,6 +58,11 @@ def corpus(tier):
                 start = (m, t, ver)
                 out.append(('%s.t%d.h%d.none' % (m.decode(), ti, hi), httpgen.build('request', start, hs, 'none')))
                 if m in (b'GET', b'DELETE', b'OPTIONS') and not thorough:
+                    # a body on these methods is unusual, not ill-formed (search-style GETs): one of each framing
+                    if hi == 0:
+                        out.append(('%s.t%d.h%d.cl.b-abc' % (m.decode(), ti, hi), httpgen.build('request', start, hs, 'cl', b'abc')))
+                        out.append(('%s.t%d.h%d.ch.b-abc' % (m.decode(), ti, hi),
+                                    httpgen.build('request', start, hs, 'chunked', b'abc', (1, 2))))
                     continue
                 for bi, body in enumerate(BODIES):
                     if not thorough and (bi + hi) % 2 and body not in (b'', b'abc'):
@@ -153,6 +161,7 @@ def scenarios(tier):
                                   'chunk_ext': bool(m.features.get('chunk_ext')),
                                   'lowercase_cl': bool(m.features.get('lowercase_cl')),
                                   'has_proxy_headers': any(h[0].lower().startswith(b'proxy-') for h in m.headers),
+                                  'repeated_header_field': len(set(h[0].lower() for h in m.headers)) < len(m.headers),
                                   '_msg': m, '_dis': dis}))
     return out
 
